@@ -542,6 +542,9 @@ StepLaw ==
       [] st[1] = "join" -> JoinLaw(prev[n - 1], pre, st, post)
       [] st[1] = "concat" -> Len(post.rows) = Len(prev[n - 1].rows) + Len(pre.rows)
       [] OTHER -> TRUE
+\* C19: once the pipeline is being written and evaluated, no step changes the caller's tables
+InputsFrozen == [][phase = "prog" => inp' = inp]_vars
+
 \* C10: an input column outside the reference `Used` set cannot influence the result
 Perturb(I, t, c, v) == [I EXCEPT ![t].rows = [i \in 1..Len(I[t].rows) |-> [I[t].rows[i] EXCEPT ![c] = v]]]
 RECURSIVE RunProg(_, _, _)
